@@ -56,6 +56,7 @@ def handlers : List (String × (Json → Except String Json)) := [
   ("C16.channel", Qv.Drv.C16.channelJ),
   ("C19.labels", Qv.Drv.C19.labelsJ),
   ("C19.signs", Qv.Drv.C19.signsJ),
+  ("C19.combine", Qv.Drv.C19.combineJ),
   ("C10.step", Qv.Drv.C10.stepJ),
   ("C01.csr_of_dense", Qv.Drv.C01.csrOfDenseJ),
   ("C01.dense_of_csr", Qv.Drv.C01.denseOfCsrJ),
